@@ -284,6 +284,19 @@ func (g *rowGen) genTime(tag, path string, row int) time.Time {
 	case 3:
 		ns = p.base * unit
 	default:
+		if (strings.Contains(tag, "timestamp(milli") || strings.Contains(tag, "timestamp(micro")) && r.Intn(4) == 0 {
+			// millisecond and microsecond columns reach beyond what int64 nanoseconds hold: years 1..9999,
+			// and the zero time.Time, which is a value like any other in a required field
+			if r.Intn(4) == 0 {
+				return time.Time{}
+			}
+			secs := int64(r.U64()%uint64(253402300799+62135596800)) - 62135596800
+			frac := int64(r.Intn(1000)) * int64(time.Millisecond)
+			if unit == int64(time.Microsecond) {
+				frac = int64(r.Intn(1000000)) * int64(time.Microsecond)
+			}
+			return time.Unix(secs, frac).UTC()
+		}
 		// within ±200 years of the epoch (fits every unit in int64 nanoseconds)
 		ns = (int64(r.U64()>>1) % (6e18)) - 3e18
 		ns -= ns % unit
@@ -321,7 +334,10 @@ func (g *rowGen) genFixed(n int, path string, row int) []byte {
 	b := make([]byte, n)
 	switch p.mode {
 	case 1:
-		b[n-1] = byte(r.Intn(4))
+		// few distinct values that differ in ONE byte; which one depends on the column (the last one, byte 9 or 8 -
+		// the halves of a 16-byte value are compared separately by some kernels -, the first, any)
+		pos := []int{n - 1, 9 % n, 8 % n, 0, int(uint64(p.base) % uint64(n))}[uint64(p.base)%5]
+		b[pos] = byte(r.Intn(4))
 	case 2:
 		x := uint64(p.base + int64(row)*p.step)
 		for i := 0; i < n && i < 8; i++ {
@@ -448,7 +464,7 @@ func eqNorm(a, b reflect.Value, path string) (bool, string) {
 	t := a.Type()
 	if t == timeType {
 		ta, tb := a.Interface().(time.Time), b.Interface().(time.Time)
-		if ta.UnixNano() != tb.UnixNano() {
+		if !ta.Equal(tb) {
 			return false, fmt.Sprintf("%s: time %v != %v", path, ta.UTC(), tb.UTC())
 		}
 		return true, ""
